@@ -16,8 +16,8 @@ from checks import wave_common as W
 PROP = 'C04'
 LEVEL = 'exploration'
 RULE = ('W1: every primitive x every tuple of input waveforms on a time grid x delay-table combinations x output capacities; W2: family circuits x {0,1,R,F} stimuli and '
-        'multi-transition inputs x delay plans x capacities; each case is re-run shifted by delta in {1/4, 5} (thorough also 1, 64) and scaled by 2^k, k in {-2, 3} '
-        '(thorough also 1); oracles: window [min(first_i + min d_i), max(last_i + max d_i)], exact shift, exact scale, strict monotonicity for polarity-independent delays; '
+        'multi-transition inputs x delay plans x capacities; each case is re-run shifted by delta in {-1, 5.25} (thorough 1/4, 1, 5, 64, -1, -3.5: to time 0 and below) and scaled by 2^k, k in {-12, 10} '
+        '(thorough -24, -12, -2, 1, 3, 14); oracles: window [min(first_i + min d_i), max(last_i + max d_i)], exact shift, exact scale, strict monotonicity for polarity-independent delays; '
         'distinct_nontrivial = distinct (case, output waveform) signatures with >= 1 transition')
 ASSUMPTIONS = ['dyadic times/delays: every float operation is exact, so "exactly" is meaningful', 'delays >= 0; input waveforms strictly increasing',
                'window bounds use, per input line, the minimum/maximum of its four polarity entries (static timing analysis of the annotated netlist)']
